@@ -159,8 +159,9 @@ func Check(c *Case) (res kit.Result) {
 		return
 	}
 	bits := kit.Info(c.T).Bits
+	skipped := false
 	defer func() {
-		if res.Fail == "" {
+		if res.Fail == "" && !skipped {
 			res.Class(c.Entry + ":" + c.kind())
 		}
 	}()
@@ -180,6 +181,7 @@ func Check(c *Case) (res kit.Result) {
 		sizesOK(&res, "sizes", c, b, bits)
 	case "appendSample":
 		if !c.inert() {
+			skipped = true
 			return kit.Result{}
 		}
 		b := kit.AllocAny(c.T, c.alloc())
@@ -194,6 +196,7 @@ func Check(c *Case) (res kit.Result) {
 		}
 	case "appendEmpty":
 		if !c.inert() {
+			skipped = true
 			return kit.Result{}
 		}
 		b := kit.AllocAny(c.T, c.alloc())
@@ -275,6 +278,7 @@ func Check(c *Case) (res kit.Result) {
 		// appending a non-empty buffer to it (it then leaves the pool's capacity
 		// class and is dropped). Buffers obtained afterwards must still be inert.
 		if !c.inert() || c.C == 0 {
+			skipped = true
 			return kit.Result{}
 		}
 		pool := kit.NewAnyPool(c.T, c.alloc())
@@ -307,6 +311,7 @@ func Check(c *Case) (res kit.Result) {
 	case "write", "read", "writeStriped", "readStriped":
 		f, ok := rwTable[c.U+"/"+c.T]
 		if !ok {
+			skipped = true
 			return kit.Result{}
 		}
 		r := f(c)
@@ -316,6 +321,7 @@ func Check(c *Case) (res kit.Result) {
 	case "conv":
 		return conv(c)
 	default:
+		skipped = true
 		return kit.Result{}
 	}
 	return
